@@ -133,6 +133,13 @@ class Theory:
   def bind_obj(self, relpath, clsname, fields):
     self.classes[(relpath, clsname)] = ('obj', fields)
 
+  def bind_heap(self, relpath, clsname, ref, fields):
+    """Objects of this class live in a heap (Burstall): values are references of sort `ref`,
+    every field f is a map ref -> value kept in the executor's state under the name `$H.<cls>.<f>`.
+    Aliasing between references is handled by the maps (two names may denote the same object)."""
+    self.classes[(relpath, clsname)] = ('heap', ref, fields)
+    self.__dict__.setdefault('heap_sorts', {})[ref.name] = (relpath, clsname)
+
   def add(self, contract):
     self.contracts[contract.key] = contract
     return contract
